@@ -110,6 +110,53 @@ def measure_arena(ops, impl, cases):
             "panics": sum(1 for o in impl if o == "panic")}
 
 
+def _hist(ops):
+    hist = {}
+    for l in ops:
+        w = l.split()
+        k = " ".join(w[:2]) if w and len(w[0]) == 1 else (w[0] if w else "")
+        hist[k] = hist.get(k, 0) + 1
+    return hist
+
+
+def _events(outdir_hint=None):
+    return {}
+
+
+def measure_tree(kind):
+    def nontrivial(lines, outs):
+        saw_branch_root = any(o.startswith("root=B") for o in outs)
+        removed = any(l.startswith("R remove") and o.startswith("some") for l, o in zip(lines, outs))
+        if kind == "ops":
+            return saw_branch_root and removed
+        if kind == "iter":
+            return saw_branch_root and any(l.startswith("R interleave") for l in lines)
+        if kind == "range":
+            nonempty = any(l.startswith("R range") and o not in ("[]", "") for l, o in zip(lines, outs))
+            empty = any(l.startswith("R range") and o == "[]" for l, o in zip(lines, outs))
+            return saw_branch_root and nonempty and empty
+        if kind == "api":
+            return any(o.startswith("err ") for o in outs) and any(o.startswith("ok") for o in outs)
+        return True
+
+    def measure(ops, impl, cases):
+        d, nt, samples = _distinct(cases, ops, nontrivial, impl)
+        caps = {}
+        heights = 0
+        for l in ops:
+            if l.startswith("R new "):
+                caps[l.split()[2]] = caps.get(l.split()[2], 0) + 1
+        return {"distinct_cases": d, "distinct_nontrivial": nt, "samples": samples, "op_histogram": _hist(ops),
+                "capacities": dict(sorted(caps.items(), key=lambda kv: int(kv[0]))[:40]),
+                "panics": sum(1 for o in impl if o == "panic"), "ub": sum(1 for o in impl if o == "ub"),
+                "dumps_compared": sum(1 for l in ops if l == "R dump")}
+    return measure
+
+
 SUITES = {
     "arena": {"measure": measure_arena},
+    "tree-ops": {"measure": measure_tree("ops")},
+    "tree-iter": {"measure": measure_tree("iter")},
+    "tree-range": {"measure": measure_tree("range")},
+    "tree-api": {"measure": measure_tree("api")},
 }
